@@ -27,6 +27,18 @@ def tree_with_strings(rng):
     o.kids.insert(rng.randrange(len(o.kids) + 1), s)
     c = Node('t', key=b'ck', kconst=True)
     o.kids.append(c)
+    # constant keys on members that own further memory: a failure in the middle of copying or
+    # releasing such a member must not touch the key
+    cs = Node.string(bytes(rng.randrange(1, 256) for _ in range(rng.choice([1, 20]))), key=b'const-key-string')
+    cs.kconst = True
+    o.kids.insert(rng.randrange(len(o.kids) + 1), cs)
+    cw = Node('w', key=b'const-key-raw', kconst=True, sval=b'[1, 2]')
+    o.kids.insert(rng.randrange(len(o.kids) + 1), cw)
+    ca = Node('a', key=b'const-key-array', kconst=True)
+    ca.kids = [Node.string(b'inner'), Node.num(1.0)]
+    o.kids.insert(rng.randrange(len(o.kids) + 1), ca)
+    rs = Node('s', key=b'string-reference', ref=True, sval=b'borrowed text')
+    o.kids.append(rs)
     return o
 
 
